@@ -80,3 +80,6 @@ NOT_APPLICABLE = {
     'C16': 'contracts for System/PRISM.__init__ under construction; not yet claimed',
     'C17': 'quantity-algebra contracts under construction; not yet claimed',
 }
+
+for _p in ('C01', 'C02', 'C04', 'C05', 'C06', 'C08', 'C16', 'C17'):
+    PROPS.setdefault(_p, {'level': 'proof', 'technique': TECH, 'explanation': 'under construction', 'assumptions': [A_FP, A_ASSERT, A_NUMPY], 'registered': False})
